@@ -70,12 +70,13 @@ OPTS = dict(p_index=0.65, p_units=0.55, p_chain2=0.3, p_param=0.35, p_matfree=0.
             p_implicit=0.4, p_scaling=0.0, solver_mix='any')
 
 A_NL = 1e-11          # atol of every nonlinear solver (on the norm it tests); rtol is switched off
-A_LN = 1e-12          # atol of every iterative linear solver; rtol is switched off
+A_LN = 1e-12          # smallest atol of the iterative linear solvers (see _bounds: raised to the round-off floor); rtol off
 RTOL_OFF = 1e-300
 EPS = 2.220446049250313e-16
 BASE_DIRECT = 1e-8    # DESIGN 3.2 shared rule
 BASE_ITER = 1e-6
 LOOSE = 1e-6          # a derived bound above this (relative) makes the case unjudgeable
+P_KNOWN = 0.25        # share of models that keep a scaling assignment hitting a recorded defect (see avoid_known)
 
 NLV = {
     'newton': {'type': 'newton', 'solve_subsystems': False, 'linesearch': None},
@@ -118,7 +119,7 @@ def _r4(x):
     return float('%.4g' % x)
 
 
-def add_scaling(spec, rng, wide, p_known=0.2):
+def add_scaling(spec, rng, wide, p_known=None):
     """deep copy of `spec` with random ref / ref0 / res_ref on outputs (states and IndepVarComp outputs)."""
     sp = copy.deepcopy(spec)
     lo, hi = (-3.0, 3.0) if wide else (-2.0, 2.0)
@@ -164,14 +165,57 @@ def add_scaling(spec, rng, wide, p_known=0.2):
             vals['res_ref'] = [mag() * rng.choice([1, 1, 1, 1, 1, -1]) for _ in range(m)]
         for key, v in vals.items():
             oo[key] = np.array(v, dtype=float).reshape(oo['shape']).tolist() if arr else float(v[0])
-    # The combination {array ref0, scalar ref, src_indices selecting a different number of entries} hits a
-    # recorded defect (Group._compute_root_scale_factors sizes the broadcast ref from the un-indexed ref0) that
-    # aborts final_setup.  Keep it in a minority of the affected models (so the finding stays observed) and give
-    # the others the equivalent explicit array ref so that they exercise the rest of the machinery.
+    avoid_known(sp, rng, P_KNOWN if p_known is None else p_known, mag)
+    return sp
+
+
+def _comp_flags(c):
+    """(component has output scaling, component has residual scaling) as OpenMDAO derives them in add_output."""
+    osc = rsc = False
+    for o in c['outputs']:
+        n = int(np.prod(o['shape']))
+        ref, ref0 = _vec(o, 'ref', n, 1.0), _vec(o, 'ref0', n, 0.0)
+        rr = _vec(o, 'res_ref', n, 1.0) if o.get('res_ref') is not None else \
+            (np.ones(n) if c['kind'] == 'imp' else ref)
+        osc |= bool(np.any(ref != 1.0) or np.any(ref0 != 0.0))
+        rsc |= bool(np.any(rr != 1.0))
+    return osc, rsc
+
+
+def known_solve_linear_defect_comps(spec):
+    """explicit / independent-variable components with output scaling but no residual scaling (recorded defect:
+    ExplicitComponent._solve_linear copies between the scaled vectors unless the component has residual scaling)."""
+    return [c for c in spec['comps'] if c['kind'] in ('exp', 'ivc') and _comp_flags(c) == (True, False)]
+
+
+def known_matfree_defect_comps(spec):
+    """matrix-free explicit components with output scaling (recorded defect: ExplicitComponent._apply_linear
+    unscales d_residuals but not d_outputs before it adds the identity part)."""
+    return [c for c in spec['comps'] if c['kind'] == 'exp' and c.get('matfree') and _comp_flags(c)[0]]
+
+
+def avoid_known(sp, rng, p_known, mag):
+    """Each recorded defect is tied to a narrow class of scaling assignments.  Keep that class in a minority of
+    the affected models (so the finding stays observed) and move the others just outside it, so that they exercise
+    the rest of the machinery instead of failing for a reason that is already on record."""
+    # {array ref0, scalar ref, src_indices selecting a different number of entries}: give the equivalent array ref
     for oo in known_ref0_defect_outputs(sp):
         if rng.random() >= p_known:
             oo['ref'] = np.full(oo['shape'], float(oo.get('ref', 1.0))).tolist()
-    return sp
+    # explicit component with output scaling only: add a residual scale to one of its outputs
+    for c in known_solve_linear_defect_comps(sp):
+        if rng.random() >= p_known:
+            oo = rng.choice(c['outputs'])
+            v = mag()
+            oo['res_ref'] = v if abs(v - 1.0) > 1e-6 else 2.0
+    # matrix-free explicit component with output scaling: keep only its residual scaling
+    for c in known_matfree_defect_comps(sp):
+        if rng.random() >= p_known:
+            for oo in c['outputs']:
+                had = oo.pop('ref', None) is not None
+                had = (oo.pop('ref0', None) is not None) or had
+                if had and oo.get('res_ref') is None:
+                    oo['res_ref'] = mag()
 
 
 def known_ref0_defect_outputs(spec):
@@ -318,6 +362,25 @@ def dict_direct_in_use(spec_cell):
     return bool(found)
 
 
+def known_taints(sp, mode):
+    """recorded linear-path defects whose precondition holds in this cell (priority order)."""
+    t = []
+    root_ln = sp['tree']['ln']['type']
+    if mode == 'rev' and dict_direct_in_use(sp):
+        # the dictionary-jacobian DirectSolver factorises the forward-scaled matrix and reuses its transpose
+        t.append('directsolver(assemble_jac=False)+rev+scaling')
+    if root_ln == 'direct' and not sp['tree']['ln'].get('assemble_jac') and \
+            any(c['kind'] == 'imp' and c.get('matfree') and _comp_flags(c)[0] for c in sp['comps']):
+        # _TotalJacInfo linearizes the root linear solver outside the scaled context: a matrix-free implicit
+        # component then evaluates its state-dependent apply_linear at doubly-unscaled outputs
+        t.append('root-directsolver(assemble_jac=False)+matrix-free-implicit-comp+output-scaling')
+    if known_matfree_defect_comps(sp):
+        t.append('matrix-free-explicit-comp+output-scaling')
+    if known_solve_linear_defect_comps(sp) and root_ln not in ('direct', 'krylov'):
+        t.append('explicit-comp-output-scaling-without-resid-scaling+solve_linear')
+    return t
+
+
 def cell_names(spec_cell, nlv, lnv):
     t = spec_cell['tree']
     nl = nlv
@@ -419,29 +482,45 @@ class _ScaleHook:
         return False
 
 
-def _tune_solvers(prob, fmon):
-    """rtol off / fixed atol on every iterative solver of the tree (so the oracle knows what convergence means)."""
+def _solvers(prob):
     import openmdao.api as om
-
-    def tune_ln(s):
-        if s is None:
-            return
-        if type(s) in (om.LinearBlockGS, om.LinearBlockJac, om.ScipyKrylov):
-            s.options['atol'] = A_LN
-            s.options['rtol'] = RTOL_OFF
-        pre = getattr(s, 'precon', None)
-        if pre is not None:
-            fmon.ignore.add(id(pre))      # fixed number of sweeps: not a convergence claim
+    nls, lns, pres = [], [], []
     for s in prob.model.system_iter(include_self=True, recurse=True):
         nl = getattr(s, 'nonlinear_solver', None)
         if nl is not None and not isinstance(nl, om.NonlinearRunOnce):
-            nl.options['atol'] = A_NL
-            nl.options['rtol'] = RTOL_OFF
-            tune_ln(getattr(nl, 'linear_solver', None))
-        tune_ln(getattr(s, 'linear_solver', None))
+            nls.append(nl)
+            if getattr(nl, 'linear_solver', None) is not None:
+                lns.append(nl.linear_solver)
+        if getattr(s, 'linear_solver', None) is not None:
+            lns.append(s.linear_solver)
+    for ln in list(lns):
+        if getattr(ln, 'precon', None) is not None:
+            pres.append(ln.precon)
+    lns = [ln for ln in lns if type(ln) in (om.LinearBlockGS, om.LinearBlockJac, om.ScipyKrylov)]
+    return nls, lns, pres
 
 
-def _run_twin(G, sp, fm, mode, of_names, wrt_names, want_hook):
+def _tune_nonlinear(prob, fmon):
+    """before run_model: rtol off / atol = A_NL on every nonlinear solver, so that the oracle knows what a
+    convergence report means.  The linear solvers keep G's tolerances (atol = rtol = 1e-13): during run_model they
+    only produce Newton steps, whose accuracy does not enter the oracle."""
+    nls, lns, pres = _solvers(prob)
+    for nl in nls:
+        nl.options['atol'] = A_NL
+        nl.options['rtol'] = RTOL_OFF
+    for pre in pres:
+        fmon.ignore.add(id(pre))      # fixed number of sweeps: not a convergence claim
+
+
+def _tune_linear(prob, a_ln):
+    """before compute_totals: rtol off / atol = a_ln on every iterative linear solver."""
+    nls, lns, pres = _solvers(prob)
+    for ln in lns:
+        ln.options['atol'] = a_ln
+        ln.options['rtol'] = RTOL_OFF
+
+
+def _run_twin(G, sp, fm, mode, of_names, wrt_names, want_hook, a_ln=A_LN):
     """build, run and observe one twin.  -> dict(status=..., ...)"""
     res = {'status': 'ok'}
     hook = _ScaleHook() if want_hook else None
@@ -453,7 +532,7 @@ def _run_twin(G, sp, fm, mode, of_names, wrt_names, want_hook):
             try:
                 prob = G.build(sp, comp_factory=_ivc_factory)
                 prob.setup(mode=mode)
-                _tune_solvers(prob, fmon)
+                _tune_nonlinear(prob, fmon)
                 prob.run_model()
             except _Abort:
                 res.update(status='nonconverged', failures=list(fmon.failures))
@@ -483,6 +562,7 @@ def _run_twin(G, sp, fm, mode, of_names, wrt_names, want_hook):
                 res.update(status='raises', exc=e, where='get_val')
                 return res
             try:
+                _tune_linear(prob, a_ln)
                 res['J'] = np.asarray(prob.compute_totals(of=of_names, wrt=wrt_names, return_format='array'),
                                       dtype=float)
             except _Abort:
@@ -573,7 +653,7 @@ def _lipschitz(spec, fm):
     return np.sqrt(s) + beta
 
 
-def _bounds(spec_cell, fm, u, p, Ju, Jp, sv, pv):
+def _bounds(spec_cell, fm, u, p, Ju, Jp, sv, pv, ofi, wrti):
     """Derived error bounds for one twin (sv/pv = its scale vectors; all ones/zeros for the plain twin).
 
     Nonlinear.  A solver that reports convergence with rtol off promises ||t||_2 <= A_NL for the vector t it
@@ -653,17 +733,39 @@ def _bounds(spec_cell, fm, u, p, Ju, Jp, sv, pv):
     a1f = np.concatenate([pa1, sa1])
     rrf = np.concatenate([prr, srr])
     Ms = M * a1f[None, :] / rrf[:, None]
-    condM = np.linalg.cond(M) if M.size else 1.0
-    condMs = np.linalg.cond(Ms) if M.size else 1.0
-    out['cond_scaled'] = condMs
+    Mr = (M * rrf[:, None] / a1f[None, :]).T       # rev: (Dr M Du^-1)^T xs = bs with xs = x/res_ref, bs = b/(ref-ref0)
+    conds = [np.linalg.cond(X) if X.size else 1.0 for X in (M, Ms, Mr)]
+    out['cond_scaled'] = max(conds[1:])
     nMinv = np.linalg.norm(np.linalg.inv(M), 2) if M.size else 0.0
     iterative = root_ln in ITERATIVE or (root_ln != 'direct' and nlev_iter_ln > 0)
     out['iterative'] = iterative
-    out['rel_J'] = max(BASE_ITER if iterative else BASE_DIRECT, 100.0 * EPS * max(condM, condMs))
+    out['rel_J'] = max(BASE_ITER if iterative else BASE_DIRECT, 100.0 * EPS * max(conds))
     S = {'fwd': max(1.0, float(np.max(np.abs(rrf), initial=1.0))),
          'rev': max(1.0, float(np.max(np.abs(a1f), initial=1.0)))}
-    out['abs_J'] = {m: (2.0 * nMinv * S[m] * A_LN * np.sqrt(max(1, nlev_iter_ln)) if iterative else 0.0)
-                    for m in ('fwd', 'rev')}
+    # atol of the iterative linear solvers during compute_totals: as tight as the round-off floor of the scaled
+    # system allows.  Seeds are unit vectors in the scaled vectors (wrt entries in fwd, of entries in rev); the
+    # floor of the residual evaluation is eps * | |Ms| |xs| |_2 for the exact scaled solution xs.
+    out['A_LN'] = {}
+    out['abs_J'] = {}
+    for m, X, seeds in (('fwd', Ms, wrti), ('rev', Mr, ofi)):
+        if not X.size or not iterative:
+            out['A_LN'][m] = A_LN
+            out['abs_J'][m] = 0.0
+            continue
+        Xinv = np.linalg.inv(X)
+        floor = max((np.linalg.norm(np.abs(X) @ np.abs(Xinv[:, j])) for j in seeds), default=0.0) * EPS
+        a_ln = max(A_LN, 100.0 * floor)
+        out['A_LN'][m] = a_ln
+        nlev = np.sqrt(max(1, nlev_iter_ln))
+        # physical residual bound -> physical solution error (seed of physical size 1) ...
+        b1 = 2.0 * nMinv * S[m] * a_ln * nlev / (min(np.abs(rrf[wrti])) if m == 'fwd' else min(np.abs(a1f[ofi])))
+        # ... or scaled solution error mapped back: dJ[i,j] = a1_i dxs_i / res_ref_j (fwd), res_ref_j dxs_j / a1_i (rev)
+        if m == 'fwd':
+            conv = np.max(np.abs(a1f[ofi])) / np.min(np.abs(rrf[wrti]))
+        else:
+            conv = np.max(np.abs(rrf[wrti])) / np.min(np.abs(a1f[ofi]))
+        b2 = 2.0 * np.linalg.norm(Xinv, 2) * a_ln * nlev * conv
+        out['abs_J'][m] = min(b1, b2)
     return out
 
 
@@ -734,8 +836,10 @@ def _run_cell(G, fm, spec, sspec, feats, scal, unscal, ustar, p, Ju, Jp, cell, c
         return '%s:nl=%s:ln=%s:mode=%s:scaling=%s' % (what, nl_name, ln_name, mode, fkey)
 
     # ---- derived bounds (from R and the spec only)
-    bp = _bounds(sp_p, fm, ustar, p, Ju, Jp, *unscal)
-    bs = _bounds(sp_s, fm, ustar, p, Ju, Jp, *scal)
+    ofi = np.concatenate([np.arange(*fm.soff[o]) + fm.nparam for o in of])
+    wrti = np.concatenate([np.arange(*fm.poff[w]) for w in wrt])
+    bp = _bounds(sp_p, fm, ustar, p, Ju, Jp, *unscal, ofi, wrti)
+    bs = _bounds(sp_s, fm, ustar, p, Ju, Jp, *scal, ofi, wrti)
     if max(bp['h'], bs['h']) > 0.01:
         acc.skip('linearisation-guard(h>0.01)')
         return
@@ -745,7 +849,7 @@ def _run_cell(G, fm, spec, sspec, feats, scal, unscal, ustar, p, Ju, Jp, cell, c
         return
 
     # ---- the twins
-    rp = _run_twin(G, sp_p, fm, mode, of_names, wrt_names, False)
+    rp = _run_twin(G, sp_p, fm, mode, of_names, wrt_names, False, bp['A_LN'][mode])
     if rp['status'] == 'raises':
         acc.skip('plain-twin-raises(not a scaling matter)')
         return
@@ -755,13 +859,13 @@ def _run_cell(G, fm, spec, sspec, feats, scal, unscal, ustar, p, Ju, Jp, cell, c
     if rp['flags'][0] or rp['flags'][1]:
         raise RuntimeError('plain twin reports output/residual scaling')
     acc.count('obs:plain-twin-unscaled')
-    rsd = _run_twin(G, sp_s, fm, mode, of_names, wrt_names, True)
+    rsd = _run_twin(G, sp_s, fm, mode, of_names, wrt_names, True, bs['A_LN'][mode])
     if rsd['status'] == 'raises':
         e = rsd['exc']
         k = exc_key('scaled-twin-' + rsd['where'], e)
         if known_ref0_defect_outputs(sp_s) and isinstance(e, ValueError) and rsd['where'] == 'setup-or-run' and \
                 k.split('@')[-1] in ('group.py:_compute_root_scale_factors', 'default_vector.py:_set_scaling'):
-            key = 'array-ref0+scalar-ref+src_indices-subset:final_setup-raises:ValueError'
+            key = 'array-ref0+scalar-ref+src_indices-subset:final_setup-raises-ValueError'
         else:
             key = K(k)
         acc.viol(key, 'only the scaled twin raises %s: %s' % (type(e).__name__, str(e)[:200]), ccase)
@@ -854,8 +958,12 @@ def _run_cell(G, fm, spec, sspec, feats, scal, unscal, ustar, p, Ju, Jp, cell, c
     totals_judged = False
     if lin_fail_s or lin_fail_p:
         acc.count('unjudged:totals(linear-solver-nonconvergence)')
+        if os.environ.get('OMV_DEBUG'):
+            print('LINFAIL', cell, rsd.get('lin_failures'), rp.get('lin_failures'))
     elif bs['rel_J'] > 1e-5:
         acc.count('unjudged:totals(scaled-system-ill-conditioned)')
+    elif max(bs['abs_J'][mode], bp['abs_J'][mode]) > 1e-5 * max(1.0, float(np.max(np.abs(Jref_p), initial=0.0))):
+        acc.count('unjudged:totals(derived-linear-tolerance-too-loose)')
     elif bad:
         pass        # totals at a wrong point are not a separate finding
     else:
@@ -882,11 +990,10 @@ def _run_cell(G, fm, spec, sspec, feats, scal, unscal, ustar, p, Ju, Jp, cell, c
     if bad:
         first = True
         only_totals = all(w.startswith('totals-') for w, _ in bad)
+        taints = known_taints(sp_s, mode)
         for what, msg in bad[:3]:
-            if only_totals and mode == 'rev' and dict_direct_in_use(sp_s):
-                # DirectSolver without assembled jacobian factorises the forward-scaled matrix and reuses its
-                # transpose in rev mode
-                key = 'directsolver(assemble_jac=False)+rev+scaling:' + what
+            if only_totals and taints:
+                key = taints[0] + ':' + what
             else:
                 key = K('scaled-twin-' + what)
             acc.viol(key, msg, ccase, new_case=first)
